@@ -17,6 +17,8 @@ MODDIR = os.path.join(common.SPEC, "tree")
 # ------------------------------------------------------------------------------------------------------------
 class GenericAdapter:
     name = "generic"
+    typed = False
+    NBLK = 0
 
     def __init__(self):
         armi_ready()
@@ -36,6 +38,9 @@ class GenericAdapter:
             f |= self.B
         return f
 
+    def owns_grid(self, o):
+        return True
+
     def make(self, o):
         c = self.Node("n%d" % o)
         c.setType("t%d" % (o % 3), self.flags_of(o))
@@ -46,7 +51,7 @@ class GenericAdapter:
 
     def build(self, root):
         w = {"obj": {}, "orig": {}, "err": ""}
-        live = root["live"] if isinstance(root, dict) and "live" in root else root.get("live0", [1, 2, 3])
+        live = root["live"]
         for n in live:
             w["obj"][n] = self.make(n)
             w["orig"][n] = n
@@ -59,12 +64,14 @@ class GenericAdapter:
         try:
             if n == "Add":
                 O[a["p"]].add(O[a["c"]])
-                O[a["c"]].moveTo(O[a["p"]].spatialGrid[a["i"], 0, 0])
-            elif n == "AddPresent":
+                if not self.typed:
+                    O[a["c"]].moveTo(O[a["p"]].spatialGrid[a["i"], 0, 0])
+            elif n in ("AddPresent", "AddWrongType"):
                 O[a["p"]].add(O[a["c"]])
             elif n == "Insert":
                 O[a["p"]].insert(a["k"], O[a["c"]])
-                O[a["c"]].moveTo(O[a["p"]].spatialGrid[a["i"], 0, 0])
+                if not self.typed:
+                    O[a["c"]].moveTo(O[a["p"]].spatialGrid[a["i"], 0, 0])
             elif n == "InsertPresent":
                 O[a["p"]].insert(0, O[a["c"]])
             elif n in ("Remove", "RemoveAbsent"):
@@ -78,6 +85,8 @@ class GenericAdapter:
                 c.moveTo(c.parent.spatialGrid[a["i"], 0, 0])
             elif n == "Sort":
                 O[a["p"]].sort()
+            elif n == "Reestablish":
+                O[a["p"]].reestablishBlockOrder()
             elif n in ("DeepCopy", "Pickle"):
                 src = O[a["x"]]
                 new = copy.deepcopy(src) if n == "DeepCopy" else pickle.loads(pickle.dumps(src))
@@ -91,7 +100,7 @@ class GenericAdapter:
                     w["orig"][nid] = w["orig"][inv[id(o_old)]]
             else:
                 raise AssertionError("unknown action " + n)
-        except (RuntimeError, ValueError) as ex:
+        except (RuntimeError, ValueError, TypeError) as ex:
             w["err"] = type(ex).__name__
         return w["err"]
 
@@ -116,7 +125,7 @@ class GenericAdapter:
             par.append(nid(o.parent))
             sl = o.spatialLocator
             att.append(bool(sl is not None and sl.grid is not None))
-            li = getattr(sl, "i", None)
+            li = getattr(sl, "k" if self.typed else "i", None)
             loc.append(int(li) if li is not None and float(li) == int(li) else repr(li))
             chain = []
             x = o.parent
@@ -153,8 +162,11 @@ class GenericAdapter:
                 "contains": sorted(m for m in live if O[m] in o),
             })
             # grids at their owner (re-linked after copy / unpickle)
-            if o.spatialGrid is None or o.spatialGrid.armiObject is not o:
+            owns = self.owns_grid(w["orig"][n])
+            if (o.spatialGrid is None) == owns or (owns and o.spatialGrid.armiObject is not o):
                 q[-1]["gridOwner"] = -97
+            q[-1]["comps"] = ids(o.iterComponents())
+            q[-1]["compsA"] = ids(o.getComponents(A))
         out = {"parent": par, "loc": loc, "att": att, "orig": [w["orig"][n] for n in live], "err": w["err"], "q": q}
         if "copyShape" in w:
             out["err"] = w["copyShape"]
@@ -168,6 +180,31 @@ class GenericAdapter:
                 return nid(x)
             x = x.parent
         return 0
+
+
+class TypedAdapter(GenericAdapter):
+    """HexAssembly (orig 1) / HexBlock (2..1+NBLK) / Circle components (the rest)."""
+    name = "typed"
+    typed = True
+    NBLK = 2
+
+    def owns_grid(self, o):
+        return o == 1
+
+    def make(self, o):
+        from armi.reactor import assemblies, blocks
+        from armi.reactor.components import Circle
+
+        if o == 1:
+            x = assemblies.HexAssembly("asm", assemNum=1)
+            x.spatialGrid = self.grids.AxialGrid.fromNCells(1)
+            x.spatialGrid.armiObject = x
+        elif o <= 1 + self.NBLK:
+            x = blocks.HexBlock("blk", height=10.0)
+        else:
+            x = Circle("c%d" % o, "HT9", Tinput=25.0, Thot=25.0, od=float(o), id=0.0, mult=1)
+        x.setType("t%d" % (o % 3), self.flags_of(o))
+        return x
 
 
 _NODE = None
@@ -210,100 +247,142 @@ def walk(o):
 
 
 # ------------------------------------------------------------------------------------------------------------
-def key_of(div):
+def key_of(div, fam="generic"):
     import re
-    return "replay:%s:%s" % (div["action"]["n"], re.sub(r"\[\d+\]", "", div["first_difference"].split(":")[0]))
+    return "replay:%s%s:%s" % ("" if fam == "generic" else fam + ":", div["action"]["n"], re.sub(r"\[\d+\]", "", div["first_difference"].split(":")[0]))
+
+
+_SELFTEST = False
+_EMIT_CACHE = {}
+
+FAMILIES = {
+    # name: (adapter class, exhaustive cfg, emission cfg, trace cfg, trace constants (NOrig, N, NLoc))
+    "generic": ("CompositeTree_mc%s.cfg", "CompositeTree_emit%s.cfg", "CompositeTree_trace.cfg", (5, 8, 3)),
+    "typed": ("CompositeTree_typed_mc%s.cfg", "CompositeTree_typed_emit%s.cfg", "CompositeTree_typed_trace.cfg", (5, 8, 1)),
+}
+ACTIONS = {
+    "generic": ("Add", "AddPresent", "Insert", "InsertPresent", "RemoveChild", "RemoveAbsentWhereItMatters", "SetChildrenAny", "RemoveAll", "MoveTo", "Sort", "Copy"),
+    "typed": ("Add", "AddPresent", "AddWrongType", "Insert", "InsertPresent", "RemoveChild", "RemoveAbsentWhereItMatters", "SetChildrenAny", "RemoveAll", "Sort",
+              "Reestablish", "Copy"),
+}
+
+
+def adapter(fam):
+    return TypedAdapter() if fam == "typed" else GenericAdapter()
 
 
 def run(rep, tier, seed):
     thorough = tier == "thorough"
+    suffix = "_thorough" if thorough else ""
     tlc.sany("CompositeTree_mc", MODDIR)
-    # 1. exhaustive model checking of the design (all invariants / action properties, coverage)
-    cfg = "CompositeTree_mc_thorough.cfg" if thorough else "CompositeTree_mc.cfg"
-    res = tlc.run("CompositeTree_mc", cfg, MODDIR, want_prints=False, timeout=3000)
-    rep.add_tlc("exhaustive:" + cfg, res)
-    if res.violation:
-        rep.violation("tlc:" + res.violation["name"], "TLC: %s violated in the specification" % res.violation["name"],
-                      {"direction": "tlc", "trace": res.violation["trace"][:20000]})
-    never = [a for a in ("Add", "AddPresent", "Insert", "InsertPresent", "RemoveChild", "RemoveAbsent", "RemoveAll",
-                         "MoveTo", "Sort", "Copy") if res.coverage.get(a, (0, 0))[1] == 0]
-    if never:
-        raise tlc.MachineryError("vacuous: actions never taken: %s" % never)
-
-    # 2. spec -> code: every explored edge of the emission config, executed on real objects
-    ecfg = "CompositeTree_emit_thorough.cfg" if thorough else "CompositeTree_emit.cfg"
-    eres = tlc.run("CompositeTree_mc", ecfg, MODDIR, workers=1, coverage=False, timeout=3000)
-    rep.add_tlc("edges:" + ecfg, eres)
-    obs = {rp.skey(p["st"]): p["obs"] for p in eres.prints if isinstance(p, dict) and "st" in p}
-    edges = [p for p in eres.prints if isinstance(p, dict) and "act" in p]
-    for e in edges:
-        o = obs.get(rp.skey(e["to"]))
-        if o is None:
-            continue
-        o = dict(o)
-        o["err"] = e["err"]
-        e["obs"] = o
-    edges = [e for e in edges if "obs" in e]
-    g = rp.Graph(edges)
-    ad = GenericAdapter()
-    n, nt, divs = rp.replay_graph(g, ad, max_edges=None if thorough else 40000, rng=random.Random(seed))
-    rep.add_replay("generic-composite-edges", n, nt,
-                   "every edge (s,a,t) of TLC's state graph is executed as path(s);a on fresh armi Composite objects; "
-                   "non-trivial = the edge changes the abstract state")
+    tlc.sany("CompositeTree_trace", MODDIR)
     rep.exhaustive = True
-    for d in divs:
-        rep.violation(key_of(d), "real Composite diverges from CompositeTree after %s: %s" % (
-            json.dumps(d["action"]), d["first_difference"]), dict(d, direction="replay", adapter="generic"))
-    if g.edges:
-        e = g.edges[len(g.edges) // 2]
-        rep.sample({"kind": "edge", "path": [s["act"] for s in g.path[e["_fk"]]], "act": e["act"], "expected_obs": e["obs"]})
+    for fam, (mcfg, ecfg, tcfg, tconst) in FAMILIES.items():
+        mcfg, ecfg = mcfg % suffix, ecfg % suffix
+        # 1. exhaustive model checking of the design (all invariants / action properties, coverage)
+        if not _SELFTEST:
+            res = tlc.run("CompositeTree_mc", mcfg, MODDIR, want_prints=False, timeout=3000)
+            rep.add_tlc("exhaustive:" + mcfg, res)
+            if res.violation:
+                rep.violation("tlc:" + res.violation["name"], "TLC: %s violated in the specification" % res.violation["name"],
+                              {"direction": "tlc", "trace": res.violation["trace"][:20000]})
+            never = [a for a in ACTIONS[fam] if res.coverage.get(a, (0, 0))[1] == 0]
+            if never:
+                raise tlc.MachineryError("vacuous: actions never taken in %s: %s" % (mcfg, never))
 
-    # 3. code -> spec: random long edit histories on bigger trees, validated by TLC against CompositeTree_trace
-    ntr = 400 if thorough else 120
-    traces = tracecheck_driver(ad, ntr, 40 if thorough else 25, seed)
-    bad, stats = tracecheck.validate("CompositeTree_trace", "CompositeTree_trace.cfg", MODDIR, traces, timeout=3000)
-    rep.add_tlc("trace-validation", stats["tlc"])
-    rep.add_traces("random-edit-histories", len(traces), sum(len(t["ev"]) for t in traces),
-                   "seeded random edit histories on 8-node forests run on real objects; every event (op, args, full "
-                   "projected post-state incl. all query results) must be a step of CompositeTree")
-    rep.sample({"kind": "trace", "id": traces[0]["id"], "events": traces[0]["ev"][:3]})
-    for b in bad:
-        ev = b["trace"]["ev"]
-        k = b["matched"]
-        nxt = ev[k] if k < len(ev) else {}
-        rep.violation("trace:%s" % nxt.get("a", {}).get("n", "?"),
-                      "recorded history is not a behaviour of CompositeTree at event %d (%s)" % (k + 1, json.dumps(nxt.get("a"))),
-                      {"direction": "trace", "trace": b["trace"], "matched": k})
+        # 2. spec -> code: every explored edge of the emission config, executed on real objects
+        if ecfg not in _EMIT_CACHE:
+            _EMIT_CACHE[ecfg] = tlc.run("CompositeTree_mc", ecfg, MODDIR, workers=1, coverage=False, timeout=3000)
+        eres = _EMIT_CACHE[ecfg]
+        rep.add_tlc("edges:" + ecfg, eres)
+        obs = {rp.skey(p["st"]): p["obs"] for p in eres.prints if isinstance(p, dict) and "st" in p}
+        edges = [p for p in eres.prints if isinstance(p, dict) and "act" in p]
+        for e in edges:
+            o = obs.get(rp.skey(e["to"]))
+            if o is None:
+                continue
+            o = dict(o)
+            o["err"] = e["err"]
+            e["obs"] = o
+        edges = [e for e in edges if "obs" in e]
+        g = rp.Graph(edges)
+        ad = adapter(fam)
+        n, nt, divs = rp.replay_graph(g, ad, max_edges=None, rng=random.Random(seed))
+        if n == 0:
+            raise tlc.MachineryError("no edges replayed for " + fam)
+        rep.add_replay(fam + "-edges", n, nt,
+                       "every edge (s,a,t) of TLC's state graph is executed as path(s);a on fresh armi objects (%s family); "
+                       "non-trivial = the edge changes the abstract state" % fam)
+        for d in divs:
+            rep.violation(key_of(d, fam), "real %s objects diverge from CompositeTree after %s: %s" % (
+                fam, json.dumps(d["action"]), d["first_difference"]), dict(d, direction="replay", adapter=fam))
+        if g.edges:
+            e = g.edges[len(g.edges) // 2]
+            rep.sample({"kind": "edge", "family": fam, "path": [s["act"] for s in g.path[e["_fk"]]], "act": e["act"],
+                        "expected_obs": e["obs"]})
+
+        # 3. code -> spec: random long edit histories on bigger trees, validated by TLC against CompositeTree_trace
+        ntr = 400 if thorough else 100
+        traces = tracecheck_driver(ad, ntr, 40 if thorough else 25, seed, tconst)
+        bad, stats = tracecheck.validate("CompositeTree_trace", tcfg, MODDIR, traces, timeout=3000)
+        rep.add_tlc("trace-validation:" + fam, stats["tlc"])
+        rep.add_traces(fam + "-random-edit-histories", len(traces), sum(len(t["ev"]) for t in traces),
+                       "seeded random edit histories on 8-node forests run on real objects; every event (op, args, full "
+                       "projected post-state incl. all query results) must be a step of CompositeTree")
+        rep.sample({"kind": "trace", "family": fam, "id": traces[0]["id"], "events": traces[0]["ev"][:2]})
+        for b in bad:
+            ev = b["trace"]["ev"]
+            k = b["matched"]
+            nxt = ev[k] if k < len(ev) else {}
+            rep.violation("trace:%s:%s" % (fam, nxt.get("a", {}).get("n", b.get("invariant", "?"))),
+                          "recorded history is not a behaviour of CompositeTree at event %d (%s) %s" % (
+                              k + 1, json.dumps(nxt.get("a")), json.dumps(b.get("mismatch", ""))[:600]),
+                          {"direction": "trace", "family": fam, "trace": b["trace"], "matched": k, "tlc": b.get("tlc")})
     rep.assume(
         "legal edits only: add/insert/setChildren receive detached roots that are not ancestors of the new parent",
         "deep order = children of the node first, then each child's expansion (documented getChildren(deep=True) order)",
-        "generic Composite family: each object owns a CartesianGrid; Add = add ; moveTo(parent.spatialGrid[i,0,0])",
+        "generic family: each object owns a CartesianGrid; Add = add ; moveTo(parent.spatialGrid[i,0,0])",
+        "typed family: HexAssembly > HexBlock > Circle; Assembly.add places and re-indexes blocks, Assembly.insert places at the index",
     )
 
 
-def tracecheck_driver(ad, ntraces, nev, seed):
+def tracecheck_driver(ad, ntraces, nev, seed, tconst):
     """Random legal+illegal edits on real objects; log op + projected post-state."""
     rng = random.Random(seed * 7919 + 1)
     traces = []
-    NO, N, NL = 5, 8, 3
+    NO, N, NL = tconst
     for t in range(ntraces):
         w = ad.build({"live": list(range(1, NO + 1))})
         ev = []
         for _ in range(nev):
-            a = random_action(w, rng, N, NL)
+            a = random_action(ad, w, rng, N, NL)
             if a is None:
                 continue
-            ad.apply(w, a)
-            ev.append({"a": a, "post": ad.project(w)})
-        traces.append({"id": "t%d" % t, "ev": ev})
+            try:
+                ad.apply(w, a)
+                ev.append({"a": a, "post": ad.project(w)})
+            except Exception as ex:  # noqa: BLE001  an escaping exception ends the history; TLC will reject the event
+                ev.append({"a": a, "post": {"exception": "%s: %s" % (type(ex).__name__, str(ex)[:200])}})
+                break
+        traces.append({"id": "%s%d" % (ad.name[0], t), "ev": ev})
     return traces
 
 
-def random_action(w, rng, N, NL):
+def random_action(ad, w, rng, N, NL):
     O = w["obj"]
     live = sorted(O)
-    kind = rng.choice(["Add", "Add", "Insert", "Insert", "Remove", "RemoveAll", "SetChildren", "MoveTo", "Sort",
-                       "DeepCopy", "Pickle", "AddPresent", "InsertPresent", "RemoveAbsent"])
+    typed = ad.typed
+    kinds = ["Add", "Add", "Insert", "Insert", "Remove", "RemoveAll", "SetChildren", "Sort",
+             "DeepCopy", "Pickle", "AddPresent", "InsertPresent", "RemoveAbsent"]
+    kinds += ["Reestablish", "AddWrongType", "Add", "Insert"] if typed else ["MoveTo"]
+    kind = rng.choice(kinds)
+
+    def kind_of(n):
+        o = w["orig"][n]
+        return "gen" if not typed else "asm" if o == 1 else "blk" if o <= 1 + ad.NBLK else "cmp"
+
+    def fits(p, c):
+        return not typed or (kind_of(p), kind_of(c)) in (("asm", "blk"), ("blk", "cmp"))
 
     # the driver's own bookkeeping comes from the child lists only (never from .parent, which is under test)
     owner = {}
@@ -320,7 +399,7 @@ def random_action(w, rng, N, NL):
         return out
 
     def can_take(p, c):
-        return id(O[c]) not in owner and id(O[c]) not in anc_self(p)
+        return id(O[c]) not in owner and id(O[c]) not in anc_self(p) and fits(p, c)
 
     p = rng.choice(live)
     kids = [k for k in live if owner.get(id(O[k])) is O[p]]
@@ -332,6 +411,9 @@ def random_action(w, rng, N, NL):
         if kind == "Add":
             return {"n": "Add", "p": p, "c": c, "i": rng.randrange(NL)}
         return {"n": "Insert", "p": p, "k": rng.randrange(len(kids) + 1), "c": c, "i": rng.randrange(NL)}
+    if kind == "AddWrongType":
+        cs = [c for c in live if kind_of(p) == "asm" and kind_of(c) == "cmp" and id(O[c]) not in owner]
+        return {"n": kind, "p": p, "c": rng.choice(cs)} if cs else None
     if kind in ("Remove", "AddPresent", "InsertPresent"):
         if not kids:
             return None
@@ -341,6 +423,8 @@ def random_action(w, rng, N, NL):
         return {"n": kind, "p": p, "c": rng.choice(cs)} if cs else None
     if kind == "RemoveAll":
         return {"n": kind, "p": p} if kids else None
+    if kind == "Reestablish":
+        return {"n": kind, "p": p} if kids and kind_of(p) == "asm" else None
     if kind == "SetChildren":
         cand = [c for c in live if c in kids or can_take(p, c)]
         rng.shuffle(cand)
@@ -354,9 +438,8 @@ def random_action(w, rng, N, NL):
         i = rng.choice([i for i in range(NL) if i != cur])  # spec: enabled iff loc # i or not attached
         return {"n": kind, "c": c, "i": i}
     if kind == "Sort":
-        sub = walk(O[p])
-        for x in sub:
-            if len(x) >= 2 and any(k.spatialLocator.grid is None for k in x):
+        for x in walk(O[p]):
+            if len(x) >= 2 and any(k.spatialLocator.grid is None and len(k) + 1 and not _is_component(k) for k in x):
                 return None
         return {"n": kind, "p": p} if kids else None
     if kind in ("DeepCopy", "Pickle"):
@@ -368,8 +451,14 @@ def random_action(w, rng, N, NL):
     return None
 
 
+def _is_component(o):
+    from armi.reactor.components import Component
+
+    return isinstance(o, Component)
+
+
 def replay(payload):
-    ad = GenericAdapter()
+    ad = adapter(payload.get("adapter", "generic"))
     if payload.get("direction") == "replay":
         steps = [{"act": a, "obs": {}} for a in payload["behaviour"]]
         steps[-1]["obs"] = payload["expected"]
@@ -382,3 +471,115 @@ def replay(payload):
 
 def replay_mod_run(ad, root, steps):
     return rp.run_behaviour(ad, root, steps, check_from=len(steps) - 1)
+
+
+def selftest():
+    """In-process mutants of the anchored code; each must be detected by replay or trace validation."""
+    global _SELFTEST
+    from harness.armi_env import armi_ready
+    from harness.report import Report
+    from harness.selftest import patched, run_mutants
+
+    armi_ready()
+    from armi.reactor import assemblies, blocks, composites
+
+    _SELFTEST = True
+    C = composites.Composite
+
+    def detect():
+        rep = Report("C01", "quick", 0)
+        run(rep, "quick", 0)
+        return [v["key"] for v in rep.violations]
+
+    def insert_no_parent(self, index, obj):
+        if obj in self._children:
+            raise RuntimeError("present")
+        self._children.insert(index, obj)
+
+    def remove_keep_locator(self, obj):
+        self._children.remove(obj)
+        obj.parent = None
+
+    def iter_off_by_one(self, deep, generationNum, checker):
+        if deep or generationNum == 1:
+            yield from filter(checker, self)
+        if deep or generationNum > 1:
+            for c in self:
+                yield from c._iterChildren(deep, generationNum - 2 if generationNum > 2 else generationNum - 1, checker)
+
+    def iter_prunes(self, deep, generationNum, checker):
+        if deep or generationNum == 1:
+            yield from filter(checker, self)
+        if deep or generationNum > 1:
+            for c in filter(checker, self):
+                yield from c._iterChildren(deep, generationNum - 1, checker)
+
+    def contains_eq(self, item):
+        return any(item.name == c.name for c in self._children)
+
+    def setstate_no_reattach(self, state):
+        self.__dict__.update(state)
+        if self.spatialGrid is not None:
+            self.spatialGrid.armiObject = self
+            for c in self:
+                c.spatialLocator.associate(self.spatialGrid)
+
+    def setstate_no_grid(self, state):
+        self.__dict__.update(state)
+        for c in self:
+            c.parent = self
+
+    def sort_shallow(self):
+        self._children.sort()
+
+    def setchildren_keep(self, items):
+        for c in items:
+            if c not in self:
+                self.add(c)
+
+    def reestablish_skip_last(self):
+        from armi.reactor import grids
+        self.spatialGrid = grids.AxialGrid.fromNCells(len(self))
+        self.spatialGrid.armiObject = self
+        for zi, b in enumerate(self[:-1] if len(self) > 1 else self):
+            b.spatialLocator = self.spatialGrid[0, 0, zi]
+
+    def asm_insert_noloc(self, index, obj):
+        self._checkPotentialChild(obj, "insert")
+        composites.Composite.insert(self, index, obj)
+
+    def anc_flags_skip_self(self, typeSpec, exactMatch=False):
+        if self.parent is None:
+            return None
+        if self.parent.hasFlags(typeSpec, exact=exactMatch):
+            return self.parent
+        return self.parent.getAncestorWithFlags(typeSpec, exactMatch=exactMatch)
+
+    orig_deepcopy = blocks.Block.__deepcopy__
+
+    def block_deepcopy_shares_child(self, memo):
+        b = orig_deepcopy(self, memo)
+        if len(self) > 1:
+            b._children[-1] = self._children[-1]
+        return b
+
+    P = patched
+    mutants = [
+        ("Composite.insert forgets obj.parent = self", lambda: P(C, "insert", insert_no_parent)),
+        ("Composite.remove keeps the locator attached", lambda: P(C, "remove", remove_keep_locator)),
+        ("_iterChildren generation counter off by one (gen 3)", lambda: P(C, "_iterChildren", iter_off_by_one)),
+        ("_iterChildren prunes below nodes failing the predicate", lambda: P(C, "_iterChildren", iter_prunes)),
+        ("__contains__ by name equality", lambda: P(C, "__contains__", contains_eq)),
+        ("__setstate__ does not re-attach children", lambda: P(composites.ArmiObject, "__setstate__", setstate_no_reattach)),
+        ("__setstate__ does not re-own the grid", lambda: P(composites.ArmiObject, "__setstate__", setstate_no_grid)),
+        ("sort not recursive", lambda: P(C, "sort", sort_shallow)),
+        ("setChildren keeps old children", lambda: P(C, "setChildren", setchildren_keep)),
+        ("reestablishBlockOrder skips the last block", lambda: P(assemblies.Assembly, "reestablishBlockOrder", reestablish_skip_last)),
+        ("Assembly.insert does not place the block", lambda: P(assemblies.Assembly, "insert", asm_insert_noloc)),
+        ("getAncestorWithFlags skips self", lambda: P(composites.ArmiObject, "getAncestorWithFlags", anc_flags_skip_self)),
+        ("Block.__deepcopy__ shares its last component", lambda: P(blocks.Block, "__deepcopy__", block_deepcopy_shares_child)),
+    ]
+    try:
+        return run_mutants(mutants, detect)
+    finally:
+        _SELFTEST = False
